@@ -79,7 +79,7 @@ def _key(k):  # noqa: ANN001, ANN202
     return tuple(k) if isinstance(k, list) else k
 
 
-def run_workload(wl: dict, cache_dir: Path | None, logpath: str, *, mutate: bool = False):  # noqa: ANN201
+def run_workload(wl: dict, cache_dir: Path | None, logpath: str, *, mutate: bool = False, timeout: float | None = None):  # noqa: ANN201
     """Execute the workload once in this process; returns a canonical result structure.
     mutate=True: afterwards the caller changes the returned results in place (as a user
     normalising a frame would)."""
@@ -94,7 +94,8 @@ def run_workload(wl: dict, cache_dir: Path | None, logpath: str, *, mutate: bool
     kind = wl["kind"]
     if kind == "parallelise":
         inputs = [(_key(o["key"]), (logpath, _key(o["key"]), o["size"])) for o in wl["ops"]]
-        res = parallelise(cache_work, inputs, cache=cache, parallel=wl["parallel"], max_workers=wl["W"], disable_tqdm=True)
+        kw = {} if timeout is None else {"timeout": timeout}
+        res = parallelise(cache_work, inputs, cache=cache, parallel=wl["parallel"], max_workers=wl["W"], disable_tqdm=True, **kw)
         out = [[canon(k), digest_of(canon(v["tag"])), v["n"], digest_of(v["blob"].hex())] for k, v in res]
         if mutate:
             for _, v in res:
@@ -231,12 +232,20 @@ def forked_run(wl: dict, cache_dir: Path | None, logpath: str, kill: dict | None
                 whole=(kill or {}).get("whole", True),
                 scope=(kill or {}).get("scope", wl.get("scope", "parallel")),
             )
+            ls = (kill or {}).get("lockstep")
+            pplan = None
             if wl["parallel"]:
-                simpool.install(simpool.PoolPlan(workers=wl["W"], seed=wl.get("pool_seed", 0)))
+                pplan = simpool.PoolPlan(workers=wl["W"], seed=wl.get("pool_seed", 0))
+                if ls is not None:
+                    pplan.lockstep = True
+                    pplan.seed = int(ls.get("seed", 0))
+                    pplan.timeout_tasks = tuple(ls.get("timeouts", ()))
+                    pplan.kill_at_yield = int(kill.get("at", -1)) if kill.get("kind") == "yield" else -1
+                simpool.install(pplan)
             out: dict
             crashfs.arm(plan)
             try:
-                res = run_workload(wl, cache_dir, logpath)
+                res = run_workload(wl, cache_dir, logpath, timeout=(60.0 if ls is not None and ls.get("timeouts") else None))
                 crashfs.disarm()
                 out = {"status": "ok", "result": res}
             except crashfs.SimWorkerDeath:
@@ -248,6 +257,11 @@ def forked_run(wl: dict, cache_dir: Path | None, logpath: str, kill: dict | None
             out["lines"] = plan.lines
             out["bytes"] = list(plan.bytes_by_file)
             out["fired"] = plan.fired
+            if pplan is not None and pplan.lockstep:
+                out["yields"] = pplan.yields
+                out["timed_out"] = list(pplan.timed_out)
+                out["max_inflight"] = max([r.get("max_inflight", 0) for r in pplan.record if r.get("lockstep")] or [0])
+                out["schedule"] = digest_of([r.get("schedule") for r in pplan.record if r.get("lockstep")])
             with os.fdopen(w, "wb") as f:
                 pickle.dump(out, f)
         except BaseException:  # noqa: BLE001
@@ -269,7 +283,7 @@ def forked_run(wl: dict, cache_dir: Path | None, logpath: str, kill: dict | None
 # --------------------------------------------------------------------------
 # generation
 # --------------------------------------------------------------------------
-def gen_workload(rng: SimRng, tier: str) -> dict:  # noqa: ARG001
+def gen_workload(rng: SimRng, tier: str) -> dict:
     r = rng("workload")
     kind = rng.weighted("workload", [("parallelise", 6), ("scan_time_course", 2), ("scan_steady_state", 1), ("mc_time_course", 1), ("scan_protocol", 1)])
     n = r.randint(1, 5)
@@ -323,7 +337,19 @@ def gen_workload(rng: SimRng, tier: str) -> dict:  # noqa: ARG001
         "pool_seed": r.randrange(10**6),
         "scope": "parallel" if kind == "parallelise" or r.random() < 0.6 else "mxlpy",
         "session_interrupt": r.choice([None, None, 0, 1, 5, 40]),
+        "lockstep": _gen_lockstep(r, kind, n, tier) if parallel else None,
     }
+
+
+def _gen_lockstep(r, kind: str, n: int, tier: str) -> dict | None:  # noqa: ANN001
+    """Workers in flight together (simkit/lockstep.py); per-task timeouts only where the
+    public API lets the caller pass one (parallelise)."""
+    if r.random() < 0.2:
+        return None
+    timeouts: list[int] = []
+    if kind == "parallelise" and r.random() < 0.6:
+        timeouts = sorted(r.sample(range(n), r.randint(1, max(1, min(2, n - 1)))))
+    return {"seed": r.randrange(10**6), "timeouts": timeouts, "tries": 4 if tier == "quick" else 12}
 
 
 # --------------------------------------------------------------------------
@@ -409,11 +435,68 @@ class History:
                 self._viol("cache_not_transparent", ["cache_not_transparent", self.wl["kind"], mode, f"session:{why}"], f"cached run {i} of one process ({why}) differs from the run without cache")
                 return
 
+    def lockstep_dry(self, ls: dict) -> dict:
+        """Uninterrupted cached runs with the workers genuinely in flight together (and, when
+        the plan says so, tasks exceeding the caller's timeout), under `tries` schedules: each
+        must not raise and must return what the run without cache returns under the same
+        timeouts.  Returns the first schedule's run."""
+        first = None
+        for j in range(int(ls.get("tries", 1))):
+            lsj = {"seed": int(ls["seed"]) + 7919 * j, "timeouts": list(ls.get("timeouts", []))}
+            nv = len(self.violations)
+            out = self._lockstep_one(lsj, j)
+            if first is None:
+                first = out
+            if len(self.violations) > nv:
+                self.wl["lockstep"] = dict(lsj, tries=1)  # the replay file names the failing schedule
+                break
+        return first
+
+    def _lockstep_one(self, ls: dict, j: int) -> dict:
+        d = self.base / f"ls-dry{j}"
+        kind = self.wl["kind"]
+        tmo = "timeouts" if ls.get("timeouts") else "no_timeouts"
+        out = forked_run(self.wl, d, str(self.base / f"log-ls{j}"), {"kind": "none", "lockstep": ls})
+        self.counters["lockstep_runs"] += 1
+        self.trace.add("lockstep", out["status"], out.get("exc"), out.get("schedule"), out.get("timed_out"))
+        if out["status"] != "ok":
+            # is it the cache?  the same schedule plan without a cache must then succeed
+            ref2 = forked_run(self.wl, None, str(self.base / f"log-ls-ref{j}"), {"kind": "none", "lockstep": ls})
+            if ref2["status"] == "ok":
+                self._viol("cached_run_failed", ["cached_run_failed", kind, "lockstep", out.get("exc", "?"), tmo], f"cached run with workers in flight together ({tmo}: {ls.get('timeouts')}, schedule seed {ls['seed']}) raised {out.get('exc')}; the same run without cache completes")
+            else:
+                self.counters["lockstep_reference_inconclusive"] += 1
+            shutil.rmtree(d, ignore_errors=True)
+            return out
+        to = out.get("timed_out", [])
+        self.counters["fault_fired:task_timeout"] += len(to)
+        if out.get("max_inflight", 0) >= 2:
+            self.counters["probe:two_or_more_workers_mid_write"] += 1
+        if to:
+            # reference: the run without cache under the same timeout plan, normalised by which
+            # tasks actually ran out of time in each run (that depends on the schedule)
+            ref2 = forked_run(self.wl, None, str(self.base / f"log-ls-ref{j}"), {"kind": "none", "lockstep": ls})
+            sane = ref2["status"] == "ok" and kind == "parallelise" and ref2["result"] == [e for i, e in enumerate(self.ref) if i not in ref2.get("timed_out", [])]
+            if not sane:
+                self.counters["lockstep_reference_inconclusive"] += 1
+                shutil.rmtree(d, ignore_errors=True)
+                return out
+            expected = [e for i, e in enumerate(self.ref) if i not in to]
+        else:
+            expected = self.ref
+        if out["result"] != expected:
+            self._viol("cache_not_transparent", ["cache_not_transparent", kind, "lockstep", tmo], f"cached run with workers in flight together ({tmo}, schedule seed {ls['seed']}) differs from the run without cache")
+        shutil.rmtree(d, ignore_errors=True)
+        return out
+
     def crash_history(self, kills: list[dict], tag: str) -> None:
         d = self.base / f"c-{tag}"
         log = str(self.base / f"log-{tag}")
         mode = "pool" if self.wl["parallel"] else "seq"
-        kdesc = "+".join(f"{k['kind']}" + ("" if k.get("whole", True) else ":worker") for k in kills)
+        kdesc = "+".join(
+            f"{k['kind']}" + ("" if k.get("whole", True) else ":worker") + (":lockstep" if k.get("lockstep") else "") + (":timeouts" if (k.get("lockstep") or {}).get("timeouts") else "")
+            for k in kills
+        )
         for k in kills:
             out = forked_run(self.wl, d, log, k)
             self.counters[f"kill:{k['kind']}:{out['status']}"] += 1
@@ -421,12 +504,23 @@ class History:
                 self.counters[f"fault_fired:{k['kind']}" + ("" if k.get("whole", True) else ":worker_only")] += 1
             elif out.get("fired"):
                 self.counters[f"fault_fired:{k['kind']}:worker_only"] += 1
-            self.trace.add("R1", k, out["status"], out.get("exc"))
+            if out.get("timed_out"):
+                self.counters["fault_fired:task_timeout"] += len(out["timed_out"])
+            if out["status"] == "exc" and k.get("lockstep") and k.get("whole", True):
+                # no worker-only fault was injected in this run, yet the cached map raised
+                # before (or without) the process kill: the run without cache decides
+                ref2 = forked_run(self.wl, None, log + "-ref", {"kind": "none", "lockstep": k["lockstep"]})
+                if ref2["status"] == "ok":
+                    self._viol("cached_run_failed", ["cached_run_failed", self.wl["kind"], "lockstep", out.get("exc", "?"), "timeouts" if k["lockstep"].get("timeouts") else "no_timeouts"], f"cached run with workers in flight together (plan {k['lockstep']}) raised {out.get('exc')}; the same run without cache completes")
+                    return
+            self.trace.add("R1", k, out["status"], out.get("exc"), out.get("schedule"))
         # state of the cache directory after the crash(es)
         files = sorted(p.name for p in d.iterdir()) if d.exists() else []
         sizes = [((d / f).stat().st_size) for f in files]
         if any(s == 0 for s in sizes):
             self.counters["probe:zero_length_file_after_kill"] += 1
+        if sum(1 for f in files if f.endswith(".tmp")) >= 2:
+            self.counters["probe:two_or_more_temporaries_after_kill"] += 1
         self.trace.add("disk", len(files), sorted(sizes))
         n_before = _count_log(log)
         out2 = forked_run(self.wl, d, log, {"kind": "none"})
@@ -465,14 +559,19 @@ class CrashMachine(Machine):
         "histories R0 no cache -> R1 killed -> [R1' killed again] -> R2 -> R3 for EVERY line-level kill point in "
         "mxlpy/parallel.py (exhaustive when <= 400 points, else stratified sample), sampled kill points in all mxlpy frames "
         "for scan workloads, and byte-granular torn writes (offsets 0, 1, middle, flush boundaries +-1, last byte) of every "
-        "result file, whole-process and single-worker death. distinct = distinct (workload kind, mode, #keys, kill kind, "
+        "result file, whole-process and single-worker death; an in-process multi-run session (caller mutates returned results, "
+        "wipes and reuses the directory, an interruption inside the process then a rerun under the same pid); and, for pool "
+        "workloads, the LOCKSTEP back-end: tasks run in real threads parked at every file-system action of the crash seam, a "
+        "seeded driver (the parent's own next() calls) decides who advances, so several workers are mid-write at once while "
+        "the parent's handlers run; faults there: per-task timeouts (worker killed where it stands, TimeoutError at its next()) "
+        "and whole-process death at every scheduler step (sampled above 14/60 steps), each followed by R2/R3. distinct = distinct (workload kind, mode, #keys, kill kind, "
         "outcome of R1) tuples; non-trivial = at least one kill fired while a result file was open or already written"
     )
     real_components = [
         "mxlpy.parallel.parallelise/_load_or_run/_pickle_save/_pickle_load/Cache", "mxlpy.scan.time_course/steady_state incl. Simulator and Scipy integrator",
         "pickle", "the real file system under a scratch directory", "process death by os._exit in a forked child (no finally, no flush)",
     ]
-    stub_components = ["pebble.ProcessPool -> SimPool (in-process, seeded completion order)", "tqdm -> silent", "cache file objects -> crash-capable writer behind a pathlib subclass"]
+    stub_components = ["pebble.ProcessPool -> SimPool (in-process, seeded completion order; lockstep back-end: one real thread per task, baton-passing, seeded step choice, pebble timeout semantics checked against the real pool by tools/selftest_stub_fidelity.py)", "tqdm -> silent", "cache file objects -> crash-capable writer behind a pathlib subclass"]
     assumptions = [
         "process-kill semantics (what reached the OS survives); power-loss reordering is out of scope",
         "byte-granular torn writes are a superset of what a kill can leave (they include short writes)",
@@ -512,6 +611,20 @@ class CrashMachine(Machine):
             kills.append([a, b])
         return kills, exhaustive
 
+    def _lockstep_kills(self, rng: SimRng, wl: dict, lsdry: dict, tier: str) -> list[list[dict]]:
+        r = rng("lockstep_kills")
+        ls = {"seed": wl["lockstep"]["seed"], "timeouts": list(wl["lockstep"].get("timeouts", []))}
+        n = int(lsdry.get("yields", 0))
+        cap = 14 if tier == "quick" else 60
+        pts = list(range(n)) if n <= cap else sorted(r.sample(range(n), cap))
+        kills: list[list[dict]] = [[{"kind": "none", "lockstep": ls}]]  # timeouts / in-flight run, then plain reruns
+        kills += [[{"kind": "yield", "at": p, "lockstep": ls}] for p in pts]
+        for _ in range(min(3, len(pts))):
+            a = {"kind": "yield", "at": r.choice(pts), "lockstep": ls}
+            b = {"kind": "yield", "at": r.randrange(max(1, n)), "lockstep": dict(ls, seed=r.randrange(10**6))}
+            kills.append([a, b])
+        return kills
+
     def run_seed(self, seed: int, tier: str, known: list[list[str]]) -> RunResult:
         rng = SimRng(seed)
         wl = gen_workload(rng, tier)
@@ -523,8 +636,13 @@ class CrashMachine(Machine):
             dry = h.dry()
             if not h.stop() and dry.get("status") == "ok":
                 h.session_history()
+            lsdry = None
+            if not h.stop() and dry.get("status") == "ok" and wl.get("lockstep") and wl["parallel"]:
+                lsdry = h.lockstep_dry(wl["lockstep"])
             if not h.stop() and dry.get("status") == "ok":
                 kills, exhaustive = self._kill_list(rng, wl, dry, tier)
+                if lsdry is not None and lsdry.get("status") == "ok":
+                    kills = self._lockstep_kills(rng, wl, lsdry, tier) + kills
                 h.counters["kill_points"] += len(kills)
                 h.counters["workloads_exhaustive_line_points" if exhaustive else "workloads_sampled_line_points"] += 1
                 for i, ks in enumerate(kills):
@@ -540,6 +658,7 @@ class CrashMachine(Machine):
                 case["kills"] = []
         finally:
             h.close()
+        case["workload"]["lockstep"] = copy.deepcopy(wl.get("lockstep"))
         return self._result(case, h, shapes)
 
     def replay(self, case: dict, known: list[list[str]]) -> RunResult:
@@ -550,6 +669,8 @@ class CrashMachine(Machine):
             h.dry()
             if not case.get("kills"):
                 h.session_history()
+                if wl.get("lockstep") and wl["parallel"]:
+                    h.lockstep_dry(wl["lockstep"])
             if case.get("kills"):
                 h.crash_history(case["kills"], "r")
         finally:
@@ -574,6 +695,20 @@ class CrashMachine(Machine):
             if wl["W"] != 1:
                 new = copy.deepcopy(case)
                 new["workload"]["W"] = 1
+                yield new
+        if wl.get("lockstep"):
+            new = copy.deepcopy(case)
+            new["workload"]["lockstep"] = None
+            new["kills"] = [k for k in (new.get("kills") or []) if not k.get("lockstep")] or new.get("kills")
+            if not any(k.get("lockstep") for k in (new.get("kills") or [])):
+                yield new
+            for j in range(len(wl["lockstep"].get("timeouts", []))):
+                new = copy.deepcopy(case)
+                t = new["workload"]["lockstep"]["timeouts"]
+                del t[j]
+                for k in new.get("kills") or []:
+                    if k.get("lockstep"):
+                        k["lockstep"]["timeouts"] = list(t)
                 yield new
         ks = case.get("kills") or []
         if len(ks) > 1:
